@@ -442,3 +442,6 @@ def run(ctx):
         un |= set(I.unmodelled)
     ctx.extra["unmodelled_operations"] = sorted(un)
     ctx.extra.pop("_interp_cache", None)
+    # R3.10: nothing on the validation path swallows an exception by jumping out of a finally clause (what is documented to surface, surfaces)
+    from . import scope as _scope3
+    _scope3.rule_no_jump_in_finally(ctx, "R3.10", ('validators', '_validators', '_legacy_validators', '_utils', '_format', '_types', 'exceptions'), "the validation path")
